@@ -10,7 +10,8 @@ from chython import MoleculeContainer, smiles, SDFRead
 ID = 'C05'
 RULE = ('molecules with aromatic or aromatisable rings: aromatic corpus molecules, test/arenes.sdf, SMILES literals of the '
         "repository's kekule/thiele tests, a curated list of 5/6/7-membered heterocycles (N O S P B Se, pyridinium, "
-        'cyclopentadienide, pyrylium, quinoid, fused) and RDKit Kekule spellings; each in the given numbering and under the '
+        'cyclopentadienide, pyrylium, quinoid, fused), RDKit Kekule spellings, aromatic spellings in other atom orders (own random '
+        'writer, RDKit) and N-protonated / N-methylated variants built through the editing API; each in the given numbering and under the '
         're-description transformer; relations checked: kekule/thiele preserve connectivity, formula, charges, radicals, '
         'per-atom H; Kekule result has orders 1-3 only and no valence error; molecule and every enumerated Kekule form '
         'aromatise to one form; second application changes nothing; result is the image under renumbering; non-trivial = '
@@ -37,10 +38,12 @@ HETEROCYCLES = [
 CONFIG = {
     'quick': {'shards': 16, 'budget_s': 150, 'n_corpus': 1600, 'k_renum': 2, 'max_forms': 40,
               'floors': {'evaluations': 4000, 'distinct_nontrivial': 500, 'molecules': 800, 'kekule-forms.enumerated': 2500,
-                         'renumbered.compared': 1500, 'clause.idempotence': 800}},
+                         'renumbered.compared': 1500, 'clause.idempotence': 800, 'aromatic-spellings.compared': 2000,
+                         'protonated.variants': 300, 'protonated.variants-two-or-more': 60}},
     'thorough': {'shards': 16, 'budget_s': 1800, 'n_corpus': 4200, 'k_renum': 8, 'max_forms': 400,
                  'floors': {'evaluations': 50000, 'distinct_nontrivial': 2500, 'molecules': 4000, 'kekule-forms.enumerated': 15000,
-                            'renumbered.compared': 25000, 'clause.idempotence': 4000}},
+                            'renumbered.compared': 25000, 'clause.idempotence': 4000, 'aromatic-spellings.compared': 8000,
+                            'protonated.variants': 1000, 'protonated.variants-two-or-more': 200}},
 }
 
 
@@ -214,6 +217,102 @@ def check(ctx, a0, src, cfg, rng):
             return
 
 
+def totals(m):
+    return (sorted((a.atomic_symbol, a.charge, a.is_radical, a.implicit_hydrogens) for _, a in m.atoms()), dict(m.brutto))
+
+
+def respell(ctx, m, src, rng, Chem):
+    """aromatic spellings of the same molecule in other atom orders (own random writer, RDKit random writer): the reader has to
+    decide the hydrogens of bare aromatic n / the Kekule form from the ring system alone, whatever the order"""
+    from rt.oracles import symmetry as SY
+    texts = []
+    for spec in ('r', 'rh'):
+        try:
+            texts.append(('writer', format(m, spec)))
+        except Exception:
+            pass
+    try:
+        rd = Chem.MolFromSmiles(src)
+        if rd is not None:
+            for _ in range(2):
+                texts.append(('rdkit', Chem.MolToSmiles(rd, doRandom=True, canonical=False)))
+    except Exception:
+        pass
+    want = totals(m)
+    for kind, t in texts:
+        if ':' in t and kind == 'writer':
+            continue
+        try:
+            k = smiles(t)
+            k.kekule()
+        except Exception as e:
+            ctx.count('aromatic-spellings.not-kekulizable')
+            if kind == 'writer':
+                ctx.violation('own-aromatic-spelling-not-kekulizable/%s' % type(e).__name__, '%s written %s: %r' % (src, t, e), {'smiles': src})
+            continue
+        ctx.count('aromatic-spellings.compared')
+        ctx.evaluations += 1
+        if any(b.order not in (1, 2, 3, 8) for *_, b in k.bonds()):
+            ctx.violation('kekule-leaves-aromatic-bond', '%s via %s' % (src, t), {'smiles': src})
+            continue
+        kk = str(k)
+        if totals(k) != want:
+            if kind == 'rdkit' and tautomer_gap(m):
+                ctx.exclude('gap-hetero-arene-tautomer-fix', {'smiles': src})       # RDKit may have moved the N-H itself
+                continue
+            ctx.violation('aromatic-spelling-kekulised-to-other-molecule/%s' % kind, '%s via %s: Kekule form %s has %s, expected %s'
+                          % (src, t, kk, totals(k)[1], want[1]), {'smiles': src, 'text': t})
+            continue
+        k.thiele()
+        if str(k) != str(m):
+            if SY.has_equivalent_substituents(m) or T.ring_diene_ct(m):
+                ctx.exclude('canonical-string-gap', {'smiles': src})
+            elif tautomer_gap(m):
+                ctx.exclude('gap-hetero-arene-tautomer-fix', {'smiles': src})
+            else:
+                ctx.violation('aromatic-spelling-aromatises-differently/%s' % kind, '%s via %s: %s vs %s' % (src, t, k, m), {'smiles': src, 'text': t})
+
+
+def protonated(ctx, m, src, cfg, rng):
+    """variants with pyridine-type nitrogens protonated / methylated through the editing API (one at a time, all at once):
+    [nH+] is the atom class the Kekule search treats as 'pyridine- or pyrrole-like'"""
+    K = m.copy()
+    G._fix_slots(K)
+    try:
+        K.kekule()
+    except Exception:
+        return
+    cand = [n for n, a in K.atoms() if a.atomic_number == 7 and not a.charge and not a.implicit_hydrogens and len(K._bonds[n]) == 2
+            and any(b.order == 2 for b in K._bonds[n].values()) and m._atoms[n].hybridization == 4]
+    if not cand:
+        return
+    sets = [cand] if len(cand) > 1 else []
+    sets += [[n] for n in cand[:2]]
+    if len(cand) > 2:
+        sets.append(rng.sample(cand, 2))
+    for k, ns in enumerate(sets):
+        V = K.copy()
+        G._fix_slots(V)
+        try:
+            if k % 2:
+                for n in ns:
+                    x = V.add_atom('C')
+                    V.add_bond(n, x, 1)
+            with V:
+                for n in ns:
+                    V.atom(n).charge = 1
+            if V.check_valence():
+                continue
+            V.thiele()
+        except Exception:
+            ctx.count('protonated.build-failed')
+            continue
+        ctx.count('protonated.variants')
+        if len(ns) > 1:
+            ctx.count('protonated.variants-two-or-more')
+        check(ctx, V, 'protonated(%s):%s' % (src, V), cfg, rng)
+
+
 def worker(ctx):
     cfg = CONFIG[ctx.tier]
     rng = ctx.rng
@@ -244,6 +343,9 @@ def worker(ctx):
             ctx.count('inputs.no-aromatic-ring')
             continue
         check(ctx, m, s, cfg, rng)
+        if tag != 'special':
+            respell(ctx, m, s, rng, Chem)
+            protonated(ctx, m, s, cfg, rng)
         # a Kekule spelling by another toolkit must aromatise to the same form
         if tag in ('corpus', 'curated') and rng.random() < .5:
             try:
@@ -285,8 +387,8 @@ def worker(ctx):
 
 def replay(ctx, mechanism, w):
     s = w['smiles']
-    if s.startswith('arenes.sdf'):
-        s = s.split(':', 1)[1]
+    if s.startswith('arenes.sdf') or s.startswith('protonated('):
+        s = s.split(':', 1)[1] if s.startswith('arenes') else s.rsplit('):', 1)[1]
     m = smiles(s)
     m.kekule()
     m.thiele()
